@@ -150,6 +150,10 @@ package inode
 //@   ensures [Fn4-root] root_ != 0 ==> result1 == root_ @C02
 //@   ensures listsValid(atxn) && listsStable(atxn)
 
+// Z2 (C12): bmap reports "allocated" only when the inode's own slot for that block (direct
+// pointer, indirect root or double-indirect root) was null and has just been filled: nothing
+// under a null slot can hold old bytes of this file, which is what zeroTail relies on.
+//@ specfunc bslot(bn uint64) = ite(bn < 8, bn, ite(bn < 520, 8, 9))
 //@ spec (*Inode).bmap(ip, atxn, bn)
 //@   props C04 C02 C10 C11 C12 C19
 //@   requires locked(ip) && inodeInv(ip) && txnOK(atxn)
@@ -161,6 +165,7 @@ package inode
 //@   ensures [I1-result] result0 == 0 || validBlk(result0) @C04 @C11
 //@   ensures [I1-inode] inodeInv(ip) @C04
 //@   ensures [lists-valid] listsValid(atxn) && listsStable(atxn)
+//@   ensures [Z2-alloc-newptr] result1 ==> old(ip.blks[bslot(bn)]) == 0 && ip.blks[bslot(bn)] != 0 @C12 @C02
 //@   ensures [S1-noalloc] !result1 ==> dirtyinum == old(dirtyinum) @C10
 //@   ensures forall j uint64 :: j != ip.Inum ==> dirtyinum[j] == old(dirtyinum)[j]
 
@@ -278,6 +283,7 @@ package inode
 //@   ensures [I1-inode] inodeInv(ip) && ip.Size == old(ip.Size) && ip.ShrinkSize == old(ip.ShrinkSize) @C04
 //@   ensures listsValid(atxn) && listsStable(atxn) && othersClean(ip)
 //@   ghostexit tailzeroedto = store(tailzeroedto, ip.Inum, sz)
+//@   ensureslocal [Z3-skip-only-new] alloc ==> old(ip.blks[bslot(sz/4096)]) == 0 @C12
 //@   ensureslocal [Z3-published] buf.dirty @C12
 //@   ensureslocal [Z3-tail] len(buf.Data) == 4096 && (forall k uint64 :: byteoff <= k && k < 4096 ==> buf.Data[k] == 0) @C12
 //@   loop 0 invariant b <= 4096 && byteoff <= b && len(buf.Data) == 4096 && (forall k uint64 :: byteoff <= k && k < b ==> buf.Data[k] == 0)
